@@ -373,6 +373,15 @@ fn run_case(case: &Case) -> Result<Result<Vec<String>, Bad>, String> {
     if tasks_run > 0 {
         classes.insert("tasks_ran_concurrently".into());
     }
+    // no status update of the concurrent phase was lost: with all threads done, the status that
+    // the instance reports (its cache) is the status that was written through to storage
+    match super::c19::status_cache_vs_storage(&world) {
+        Err(b) => return Ok(Err((format!("c18-{}", b.0), b.1, format!("right after the concurrent phase: {}", b.2)))),
+        Ok(n) if n > 0 => {
+            classes.insert("status_compared".into());
+        }
+        Ok(_) => {}
+    }
 
     // answers: as in a serial execution, i.e. all succeed
     let delete_issued = results.first().map(|d| d.iter().any(|(op, _)| matches!(op, TOp::SpareDelete))).unwrap_or(false);
